@@ -43,7 +43,9 @@ func c01Years(c *ctx) {
 				row["pa"] = 0
 				row["a"] = lun(a)
 				row["as"] = sol(a.GetSolar())
-				pb, _ := try(func() { b = calendar.NewLunar(a.GetYear(), a.GetMonth(), a.GetDay(), a.GetHour(), a.GetMinute(), a.GetSecond()) })
+				pb, _ := try(func() {
+					b = calendar.NewLunar(a.GetYear(), a.GetMonth(), a.GetDay(), a.GetHour(), a.GetMinute(), a.GetSecond())
+				})
 				row["pb"] = b2i(pb)
 				if !pb {
 					row["b"] = lun(b)
